@@ -187,7 +187,9 @@ def _add_elem(container: AV, added: AV, depth: int, how: str) -> AV:
         if how in ("add", "update"):
             # set-level qualifiers survive only if the added part has them too
             if EMPTYQ in quals:
-                quals = frozenset()
+                # an empty container that receives all of `added` IS `added` as far as set-level facts go
+                # (res = set(); res.update(closure) is epsilon-closed when closure is)
+                quals = frozenset(q for q in added.quals if q != EMPTYQ) if how == "update" else frozenset()
             else:
                 quals = frozenset(q for q in quals if q in (added.quals if how == "update" else frozenset()))
         if how == "update":
